@@ -14,6 +14,8 @@ package main
 import (
 	"fmt"
 	"sort"
+	"strings"
+	"sync"
 	"time"
 
 	"github.com/anthdm/hollywood/actor"
@@ -144,6 +146,9 @@ func c15Internal(c *caseCtx) (res caseResult) {
 		res.count("internal_mode_unavailable", 1)
 		res.Desc = "internal mode unavailable: the remote export shim does not compile against this tree"
 		return
+	}
+	if c.n%20 == 19 {
+		return c15InternalConc(c, false)
 	}
 	e1, err := actor.NewEngine(actor.NewEngineConfig())
 	e2, err2 := actor.NewEngine(actor.NewEngineConfig())
@@ -327,5 +332,141 @@ func c15E2E(c *caseCtx) (res caseResult) {
 	if c.n < 1 || res.Verdict == vViolated {
 		res.Sample = map[string]any{"scenario": res.Desc, "items": describeItems(items), "delivered": describeDeliveries(got)}
 	}
+	return res
+}
+
+// c15InternalConc: K peers send at the same time. Remote registers ONE stream reader for all
+// inbound connections and drpc calls it once per connection, concurrently; what the reader
+// keeps while it decodes one connection's envelopes must not leak into another's. Each
+// stream has its own targets, so its deliveries can be judged on their own.
+func c15InternalConc(c *caseCtx, hostile bool) (res caseResult) {
+	e1, err := actor.NewEngine(actor.NewEngineConfig())
+	e2, err2 := actor.NewEngine(actor.NewEngineConfig())
+	if err != nil || err2 != nil {
+		res.inconclusive("engine: %v %v", err, err2)
+		return
+	}
+	K := 2 + c.rng.Intn(3)
+	type strm struct {
+		items []wireItem
+		envs  []*remote.Envelope
+	}
+	var streams []strm
+	var allIDs []string
+	for k := 0; k < K; k++ {
+		items, _, _ := c15Batch(c, "peer:9", 48)
+		// several envelopes per stream, targets private to the stream
+		for i := range items {
+			items[i].target = actor.NewPID(items[i].target.Address, fmt.Sprintf("s%d-%s", k, items[i].target.ID))
+		}
+		seen := map[string]bool{}
+		for _, it := range items {
+			if !seen[it.target.ID] {
+				seen[it.target.ID] = true
+				allIDs = append(allIDs, it.target.ID)
+			}
+		}
+		cs := &captureStream{}
+		rounds := 20 + c.rng.Intn(60) // the same batch again and again: the connections stay busy side by side
+		batch := make([]wireDeliver, len(items))
+		for i, it := range items {
+			batch[i] = wireDeliver{Target: it.target, Sender: it.sender, Msg: it.msg}
+		}
+		for rd := 0; rd < rounds; rd++ {
+			if p := catchPanic(func() { writerInvoke(e1, "peer:9", cs, fakeConn{}, batch) }); p != "" {
+				res.violate("the stream writer panicked on the batch: %s", p)
+				return
+			}
+		}
+		st := strm{}
+		for rd := 0; rd < rounds; rd++ {
+			st.items = append(st.items, items...)
+		}
+		for _, env := range cs.envs {
+			b, err := env.MarshalVT()
+			if err != nil {
+				res.violate("the envelope built by the writer cannot be marshalled: %v", err)
+				return
+			}
+			dec := &remote.Envelope{}
+			if err := dec.UnmarshalVT(b); err != nil {
+				res.violate("the envelope built by the writer cannot be decoded again: %v", err)
+				return
+			}
+			st.envs = append(st.envs, dec)
+		}
+		streams = append(streams, st)
+	}
+	if hostile {
+		allIDs = append(allIDs, c16TargetIDs...)
+	}
+	lg := registerTargets(e2, "peer:9", allIDs)
+	recv := sharedReader(e2)
+	var wg sync.WaitGroup
+	hostilePanic := ""
+	if hostile {
+		// one more peer, a hostile one, is being read by the same reader all the while: bad input ends
+		// its own stream at most
+		var hs []*remote.Envelope
+		for i := 0; i < 200; i++ {
+			env, _ := hostileEnvelope(c.rng)
+			hs = append(hs, env)
+		}
+		wg.Add(1)
+		go func() {
+			defer wg.Done()
+			for _, env := range hs {
+				if p := catchPanic(func() { _ = recv(&feedStream{envs: []*remote.Envelope{env}}) }); p != "" {
+					hostilePanic = p
+					return
+				}
+			}
+		}()
+	}
+	panics := make([]string, K)
+	errs := make([]error, K)
+	start := make(chan struct{})
+	for k := range streams {
+		k := k
+		wg.Add(1)
+		go func() {
+			defer wg.Done()
+			<-start
+			panics[k] = catchPanic(func() { errs[k] = recv(&feedStream{envs: streams[k].envs}) })
+		}()
+	}
+	close(start)
+	wg.Wait()
+	total := 0
+	if hostilePanic != "" {
+		res.violate("the stream reader panicked on a hostile envelope while it was reading %d other connections (on a node the process dies): %s", K, hostilePanic)
+		return
+	}
+	for k := range streams {
+		if panics[k] != "" {
+			res.violate("the stream reader panicked while %d connections were being read side by side (on a node the process dies): %s", K, panics[k])
+			return
+		}
+		if errs[k] != nil {
+			res.violate("the stream reader rejected an envelope produced by the stream writer while %d connections were being read side by side: %v", K, errs[k])
+		}
+		var got []delivery
+		prefix := fmt.Sprintf("s%d-", k)
+		for _, d := range lg.snapshot() {
+			if strings.HasPrefix(d.TargetID, prefix) {
+				got = append(got, d)
+			}
+		}
+		before := res.Verdict
+		c15Compare(&res, streams[k].items, got)
+		if res.Verdict == vViolated && before != vViolated {
+			res.Detail += fmt.Sprintf(" (connection %d of %d read side by side by one stream reader)", k, K)
+		}
+		total += len(streams[k].items)
+	}
+	res.Desc = fmt.Sprintf("internal: %d connections read side by side by one reader, %d messages, hostile peer alongside=%v", K, total, hostile)
+	res.count("messages", int64(total))
+	res.count("concurrent_streams", int64(K))
+	res.Sig = sigHash("internal-conc", K, total/500, hostile)
 	return res
 }
